@@ -467,6 +467,14 @@ S4_MORE["C20"] += (" plot_azimuthal_contour_3d: one surface over the mesh helper
 S4_MORE["C20"] += (" plot_voronoi: one filled polygon per tessellation cell in order - its own outline, the colour of the sensor value with the same index on a scale from the smallest to "
                   "the largest value -, the sensors at their coordinates, the boundary closed by its first point.")
 S4_MORE["C03"] += " HvsrTraditional.from_hvsr_curves: row i of the table handed to the constructor is entry i's curve, frequencies of the first entry, an entry not similar to the first refused."
+_SIM_TS = ("is_similar / __eq__ under contract (contracts/similar.py): two time series are similar iff their time steps differ by at most 1e-8 s and they have as many samples, "
+           "equal iff similar and the samples of the one close to the other's; two recordings are similar iff ns / ew / vt are pairwise similar, equal iff also pairwise equal "
+           "(components, meta) with orientations within 0.1 degree; anything of another class is not similar (the test the recording's constructor applies to its components).")
+_SIM_CV = ("is_similar of HvsrCurve / HvsrTraditional / Psd / HvsrAzimuthal under contract (contracts/similar.py): same class, as many frequencies, self's frequencies close to the "
+           "other's with the tolerances given or the source's defaults (the defaults of the signature are read from the source); azimuthal: as many azimuths, first objects similar, "
+           "azimuths pairwise within 0.1 degree (loop invariant); HvsrAzimuthal.__eq__: similar and per-azimuth objects pairwise equal - the test the constructors apply.")
+S4_MORE["C18"] = S4_MORE.get("C18", "") + " " + _SIM_TS
+S4_MORE["C12"] += " " + _SIM_CV
 _R56 = {
  "C01": "centre frequencies in any order (descending, shuffled); the same recording objects processed a second time with another method, compared with the curves of the pristine samples",
  "C02": "frequency axes that are not equally spaced; samples that are exactly zero in every row, unit impulses; a window whose only sample lies 4e-7 .. 8e-7 inside its edge",
@@ -514,14 +522,15 @@ S4_ASSUME = {
          "weighted estimators opaque in the accessor proofs (formulas: the statistics.py contracts)", "_compute_statistical_weights is one array per object state (content: its own contract)", "np.cov(aweights) opaque"],
  "C12": ["np.savetxt / np.loadtxt / json.dumps / json.loads / open opaque: the models record what they are handed resp. return 'the file's array / dictionary'", "strings opaque; the title line has one entry per column (A-TEXT-ROUNDTRIP)",
          "the azimuth in a column title is an uninterpreted function of the column (A-RE)", "update_peaks_bounded on the freshly read object: range / filters recorded, masks afterwards unknown (contract: C08)",
-         "type invariant of per-azimuth objects (vectors / masks / rows have one entry per curve, one column per frequency)", "A-INDUCTION for the column offsets"],
+         "type invariant of per-azimuth objects (vectors / masks / rows have one entry per curve, one column per frequency)", "A-INDUCTION for the column offsets",
+         "np.allclose an opaque predicate of its two operands and tolerances; an azimuthal object has one azimuth per per-azimuth object and at least one (its constructor)"],
  "C14": ["A-RNG: rng.normal(mean, std, size=n) is an opaque array of the call's position and arguments", "A-EXT: _statistics reads rows < K and columns < N only (its contract), instantiated for the array handed over",
          "shapely Point / contains / Polygon.area and the tessellation opaque in _cull_points / _voronoi_weights"],
  "C15": ["json / open opaque", "settings constructors with no arguments give default objects (their attribute lists: structural obligations)",
          "A-PYNUM: symbolic numbers are Python numbers (no .tolist(); a numpy scalar's tolist() returns the Python number of the same value - evaluated natively)",
          "A-DEEPCOPY: copy.deepcopy of numbers, strings, None, arrays, lists, tuples, dictionaries gives equal content in fresh storage at every level"],
  "C17": ["A-COMPLEX: complex spectra / transfer functions are opaque values with an identity; arithmetic on them is an uninterpreted function of operator and operands (routing only; the formulas of the transfer functions are evaluated natively)", "np.mean of the squared taper = TAPER_MEAN_SQUARE(length, width) > 0", "per-component stages of psd_preprocess (_remove_instrument_response, _differentiate) opaque functions of (content, transfer function / FFT length)"],
- "C18": ["json / open opaque"],
+ "C18": ["json / open opaque", "np.allclose an opaque predicate of its two operands and tolerances; == between library objects is the left operand's __eq__ (an opaque predicate of the two objects in the container proofs)"],
  "C19": ["hvsrpy.read / preprocess / process / write_hvsr_object_to_file opaque stages (their contracts: C07, C10/C17, C01..C05, C12)", "deepcopy preserves content", "pathlib.Path(fname).stem + '.csv' as an uninterpreted function of the file name",
          "A-POOL in cli(): Pool(n) / starmap(function, tasks, chunksize) recorded, not executed; os.cpu_count() >= 2 and --nproc >= 1 are preconditions (otherwise the command fails before any file is processed)",
          "click delivers the options as the keyword dictionary of cli() (decorators not modelled)"],
